@@ -1,5 +1,6 @@
 import Bxh.Proofs.LedgerFlush
 import Bxh.Proofs.LedgerReads
+import Bxh.Proofs.LedgerRollback
 /-!
 # `QueryByPrefix` lists exactly the live keys under the prefix
 
@@ -481,6 +482,106 @@ theorem CacheDb.evictKey {l : L} (h : CacheDb l) (a : Addr) (m0 : KV String Byte
     · subst hkk; rw [KV.get_erase_eq] at hk; cases hk
     · rw [KV.get_erase_ne _ _ _ hkk] at hk; exact h a m0 k v hm0 hk
   · exact h b m k v hm hk
+
+
+/-- **flush + commit re-establish `CacheDb`**: a block executed on a ledger whose account objects are coherent (`ObjCoh`) and whose
+storage cache agrees with the database, flushed and committed: the storage cache (now holding the block's writes) agrees with the
+database (now holding them as well) -/
+theorem commit_establishes_cacheDb (H : RootPre → String) (l l1 : L) (h : Nat) (hC : ObjCoh l) (hD : CacheDb l)
+    (hc : commit (flush H l).1 h (flush H l).2 = some l1) : CacheDb l1 := by
+  obtain ⟨e1, e2⟩ := commit_state_cache h (flush H l).2 hc
+  have hst : l1.db.state = (commits (flushItems l) l.db).state := by rw [e1]; rfl
+  have hcache : l1.cache = (flushItems l).foldl (fun c p => cacheAdd c p.1 p.2) l.cache := by rw [e2]; exact flush_cache H l
+  have hnd : ((flushItems l).map (·.1)).Nodup := (flushItems_sublist l l.accounts).nodup hC.nodup
+  intro a m k v hm hk
+  rw [hcache] at hm
+  rw [hst]
+  by_cases hin : ∃ x, (a, x) ∈ flushItems l
+  · obtain ⟨x, hx⟩ := hin
+    obtain ⟨acc, hacc, _, hxe⟩ := mem_flushItems hx
+    have hga : KV.get l.accounts a = some acc := by
+      cases hg : KV.get l.accounts a with
+      | none => exact absurd hacc (fun hmem => KV.not_mem_of_get_none hg _ hmem rfl)
+      | some acc' =>
+        have := KV.unique_of_nodup hC.nodup (k := a) hacc (KV.mem_of_get hg)
+        rw [this]
+    have hds : x.dirtyState = acc.dirtyState := by rw [hxe]; exact loadOrigin_dirtyState l a acc
+    have hos : x.originState = acc.originState := by rw [hxe]; unfold loadOrigin; split <;> rfl
+    -- the database at (a, k) after the commit of all accounts: the commit of `a` alone, on the old table
+    obtain ⟨pre, post, hsplit⟩ := List.append_of_mem hx
+    have hnd2 : ((pre.map (·.1)) ++ a :: post.map (·.1)).Nodup := by rw [hsplit] at hnd; simpa using hnd
+    have hpre : ∀ q ∈ pre, q.1 ≠ a := by
+      intro q hq e
+      exact (List.nodup_append.mp hnd2).2.2 q.1 (List.mem_map.mpr ⟨q, hq, rfl⟩) a (List.mem_cons_self ..) e
+    have hpost : ∀ q ∈ post, q.1 ≠ a := by
+      intro q hq e
+      have h2 := (List.nodup_cons.mp (List.nodup_append.mp hnd2).2.1).1
+      exact h2 (by rw [← e]; exact List.mem_map.mpr ⟨q, hq, rfl⟩)
+    have hdbk : ((KV.get (commits (flushItems l) l.db).state (a, k) : Bytes)).getD "" =
+        ((KV.get (commitState a acc.originState acc.dirtyState (commits pre l.db).state) (a, k) : Bytes)).getD "" := by
+      rw [hsplit, commits_append]
+      show ((KV.get (commits post (commitAcct (commits pre l.db) a x)).state (a, k) : Bytes)).getD "" = _
+      rw [(commits_frame post _ a hpost).2.2 k, commitAcct_state, hds, hos]
+    rw [hdbk]
+    have hprek : ((KV.get (commits pre l.db).state (a, k) : Bytes)).getD "" = ((KV.get l.db.state (a, k) : Bytes)).getD "" :=
+      (commits_frame pre l.db a hpre).2.2 k
+    by_cases hw : ∃ p ∈ acc.dirtyState, p.1 = k
+    · -- written by the block: the cache holds the written value
+      obtain ⟨p, hp, hpk⟩ := hw
+      have hv : ∀ q ∈ acc.dirtyState, q.1 = k → q.2 = p.2 := by
+        intro q hq hqk
+        have h1 : (k, q.2) ∈ acc.dirtyState := by rw [← hqk]; exact hq
+        have h2 : (k, p.2) ∈ acc.dirtyState := by rw [← hpk]; exact hp
+        exact KV.unique_of_nodup (hC.dnodup a acc hga) h1 h2
+      obtain ⟨m', hm', hk'⟩ := cacheFold_state (flushItems l) l.cache a x k p.2 hnd hx
+        (by rw [hds]; exact ⟨p, hp, hpk⟩) (by rw [hds]; exact hv)
+      rw [hm'] at hm
+      injection hm with hm
+      subst hm
+      rw [hk'] at hk
+      injection hk with hk
+      subst hk
+      rw [commitState_get a acc.originState acc.dirtyState _ k p.2 ⟨p, hp, hpk⟩ hv]
+      split
+      · rfl
+      · rename_i hch
+        rw [hprek]
+        -- unchanged: the written bytes are the memoised ones, which are what the layers below — the database — hold
+        have hmemo : ((KV.get acc.originState k).getD none).getD "" = (p.2).getD "" := by
+          unfold chg beq at hch
+          simpa using hch
+        have hfirst := hC.first a acc hga k (by
+          have : KV.get acc.dirtyState k = some p.2 := by
+            cases hg : KV.get acc.dirtyState k with
+            | none => exact absurd hp (fun hmem => KV.not_mem_of_get_none hg _ hmem hpk)
+            | some w =>
+              have := KV.unique_of_nodup (hC.dnodup a acc hga) (k := k) (KV.mem_of_get hg) (by rw [← hpk]; exact hp)
+              rw [this]
+          rw [this]; rfl)
+        cases ho : KV.get acc.originState k with
+        | none => rw [ho] at hfirst; cases hfirst
+        | some ov =>
+          rw [ho] at hmemo
+          simp only [Option.getD_some] at hmemo
+          rw [← hmemo, hC.memo a acc hga k ov ho, below_of_cacheDb l hD a k]
+    · -- not written by the block: the cache entry is the old one, the commit does not touch the key
+      have hnw : ∀ p ∈ x.dirtyState, p.1 ≠ k := by
+        intro p hp e; rw [hds] at hp; exact hw ⟨p, hp, e⟩
+      have hb := cacheFold_state_unwritten (flushItems l) l.cache a x k hnd hx hnw
+      rw [hm] at hb
+      simp only [Option.bind_some, hk] at hb
+      rw [commitState_untouched a a k acc.originState acc.dirtyState _ (Or.inr (fun p hp _ e => hw ⟨p, hp, e⟩)), hprek]
+      cases hm0 : KV.get l.cache.state a with
+      | none => rw [hm0] at hb; cases hb
+      | some m0 =>
+        rw [hm0] at hb
+        simp only [Option.bind_some] at hb
+        exact hD a m0 k v hm0 hb.symm
+  · -- an account the block did not flush: cache entry and database row are the old ones
+    have hno : ∀ p ∈ flushItems l, p.1 ≠ a := fun p hp e => hin ⟨p.2, by rw [← e]; exact hp⟩
+    rw [cacheFold_other (flushItems l) l.cache a hno] at hm
+    rw [(commits_frame (flushItems l) l.db a hno).2.2 k]
+    exact hD a m k v hm hk
 
 
 end Bxh.Ledger
